@@ -15,6 +15,8 @@
 (*   "F" formatted   "U" unformatted   "S" carries #![rustfmt::skip]        *)
 (*   "E" syntax error   "P" unclosed delimiter (fatal, caught panic path)   *)
 (*   "R" syntax error the parser recovers from (`1 === 2`): still an error    *)
+(*   "Z" a file of zero bytes (an out-of-line module): its formatted text is  *)
+(*       one line terminator, so it is an unformatted file like any other     *)
 (*   "N" not UTF-8   "M" declares a module whose file is missing            *)
 (*   "A" declares a module with both x.rs and x/mod.rs                      *)
 (*   "W" formatted, but with CRLF line terminators (differs only under an     *)
@@ -63,7 +65,7 @@ WellFormed(r) ==
   /\ r.rp <= r.n
   /\ (r.fault \in FileFaults) => (r.fpos \in 1 .. r.n)
   /\ (r.fault \notin FileFaults) => r.fpos = 0
-  /\ (r.fault \in {"S", "C", "D"}) => r.fpos # r.rp   \* child-only kinds
+  /\ (r.fault \in {"S", "C", "D", "Z"}) => r.fpos # r.rp   \* child-only kinds
   /\ (r.pat = "mixed") => r.n > 1
   /\ r.ign => (r.fault \in {"none", "E", "R", "P", "M"} /\ r.pat # "mixed")
 
@@ -181,7 +183,7 @@ Resolve ==
                           /\ UNCHANGED <<ri, pc, rflags, flags, diag>>
   /\ UNCHANGED <<roots, mode, fl, disk, bk, outp, early, rewrites, exit>>
 
-Differs(k) == k \in {"U", "D"} \/ (k = "W" /\ fl.nl = "unix")
+Differs(k) == k \in {"U", "D", "Z"} \/ (k = "W" /\ fl.nl = "unix")
 LineDiffers(k) == k \in {"U", "D"}    \* what the line-based reports (json, modified) can see
 
 (* filter + format_file + handle_formatted_file + emitter, one file per step *)
@@ -246,7 +248,7 @@ Failing(r) == roots[r].fault \in RootFaults
               \/ \E j \in 1 .. roots[r].n : Kinds(r)[j] \in ParseFail \cup ResolveFail \cup Sticky
 Writes == EffMode = "files"
 
-Rewritten(k) == k = "U" \/ (k = "W" /\ fl.nl = "unix")
+Rewritten(k) == k \in {"U", "Z"} \/ (k = "W" /\ fl.nl = "unix")
 
 (* C05 *)
 FailedRootIntact ==
